@@ -106,13 +106,14 @@ Section Replay.
         /\ okseq (ws ++ [p]) es'
     | RemoveAll t :: es' =>
         prefix out t /\ (forall w, In w ws -> ~ prefix t w) /\ okseq ws es'
+    | Refuse :: _ => False
     end.
 
   Lemma okseq_app : forall a ws b, okseq ws (a ++ b) <-> okseq ws a /\ okseq (ws ++ writes a) b.
   Proof.
     induction a as [|e a IH]; intros ws b.
     - cbn. rewrite app_nil_r. tauto.
-    - destruct e as [t|p]; cbn [app okseq].
+    - destruct e as [t|p|]; cbn [app okseq]; [| |tauto].
       + rewrite IH. change (writes (RemoveAll t :: a)) with (writes a). tauto.
       + rewrite IH. change (writes (WriteFile p :: a)) with (p :: writes a).
         replace ((ws ++ [p]) ++ writes a) with (ws ++ p :: writes a) by now rewrite <- app_assoc.
@@ -197,7 +198,7 @@ Section Replay.
   Proof.
     induction es as [|e es IH]; intros ws f Hok HI.
     - cbn. rewrite app_nil_r. now split.
-    - destruct e as [t|p]; cbn [okseq] in Hok.
+    - destruct e as [t|p|]; cbn [okseq] in Hok; [| |contradiction].
       + destruct Hok as [Ht [S4 Hok]]. pose proof (step_remove ws f t HI Ht S4) as HI'.
         cbn [run]. destruct (step f (RemoveAll t)) as [f1 ok] eqn:Es.
         assert (ok = true) by (cbn in Es; now injection Es as _ <-). subst ok. cbn [fst] in HI'.
@@ -620,10 +621,10 @@ End RenderTop.
 
 Lemma one_file_per_board_on_fs : forall ext out root f,
   safe_names ext root = true -> ext_wf ext = true -> out <> [] -> fs_pre ext out root f = true ->
-  snd (run (render ext out root) f) = true
-  /\ one_file_per_board ext out root (files (fst (run (render ext out root) f))) false = true.
+  snd (run (cli_events ext out root) f) = true
+  /\ one_file_per_board ext out root (files (fst (run (cli_events ext out root) f))) false = true.
 Proof.
-  intros ext out root f Hs He Ho Hp.
+  intros ext out root f Hs He Ho Hp. rewrite (cli_events_safe ext out root Hs).
   assert (Hext : ext <> []) by (destruct ext; [discriminate | discriminate]).
   exact (render_one_file_per_board ext out Hext Ho root f Hs (fs_pre_Pre ext out root f Hp)).
 Qed.
